@@ -20,6 +20,7 @@ Open Scope Z_scope.
 
 (* wire format: 64-bit patterns are two 32-bit halves as primitive integers (cheap to parse) *)
 Definition fb (h l : int) : Z := Uint63.to_Z h * 4294967296 + Uint63.to_Z l.
+Arguments fb (h l)%uint63_scope.
 
 Record obs_step := mkOS {
   os_flag : Z;                 (* 0 = appended to the same chunk, 1 = new chunk, 2 = recoded *)
